@@ -236,6 +236,10 @@ func smtReal(f float64) string {
 }
 
 func ghostSort(goTyp string) Sort {
+	// "ref"-prefixed container types are keyed by references (entries of unallocated references are default)
+	if strings.HasPrefix(goTyp, "refseq") || strings.HasPrefix(goTyp, "refsetmap") || strings.HasPrefix(goTyp, "refseqmap") {
+		goTyp = goTyp[3:]
+	}
 	switch goTyp {
 	case "int", "ref", "string":
 		return SInt
@@ -256,10 +260,16 @@ func ghostSort(goTyp string) Sort {
 	if goTyp == "seqmap" {
 		return arrSort(SInt, arrSort(SInt, SInt))
 	}
+	if goTyp == "setmap" {
+		return arrSort(SInt, arrSort(SInt, SBool))
+	}
 	panic("unknown ghost type " + goTyp)
 }
 
 func ghostType(goTyp string) types.Type {
+	if strings.HasPrefix(goTyp, "refseq") || strings.HasPrefix(goTyp, "refsetmap") || strings.HasPrefix(goTyp, "refseqmap") {
+		goTyp = goTyp[3:]
+	}
 	if strings.HasPrefix(goTyp, "ref[") {
 		return tInt
 	}
@@ -282,8 +292,17 @@ func ghostType(goTyp string) types.Type {
 	if goTyp == "seqmap" {
 		return &seqMapType{}
 	}
+	if goTyp == "setmap" {
+		return &setMapType{}
+	}
 	panic("unknown ghost type " + goTyp)
 }
+
+// setMapType marks ghost maps from references to sets (Array Int (Array Int Bool)).
+type setMapType struct{}
+
+func (s *setMapType) Underlying() types.Type { return s }
+func (s *setMapType) String() string         { return "setmap" }
 
 // seqMapType marks ghost maps from references to integer sequences (Array Int (Array Int Int)).
 type seqMapType struct{}
@@ -446,6 +465,10 @@ func (env *SpecEnv) evalIndex(x *EIndex) (Val, types.Type) {
 		if _, ok := t.(*seqMapType); ok {
 			k := env.evalInt(x.I)
 			return Sc{sSel(c.T, k), arrSort(SInt, SInt)}, &seqType{}
+		}
+		if _, ok := t.(*setMapType); ok {
+			k := env.evalInt(x.I)
+			return SetV{T: sSel(c.T, k), K: SInt}, &setType{K: tInt}
 		}
 	}
 	sfail("indexing unsupported value in %s (type %v)", x, t)
@@ -787,6 +810,30 @@ func (env *SpecEnv) evalCall(c *ECall) (Val, types.Type) {
 			sfail("keys() needs a map")
 		}
 		return SetV{T: st.mapDom(m, asSc(v).T, env.snap()), K: vc.leaves(m.Key())[0].Sort}, &setType{K: m.Key()}
+	case "whentype":
+		// whentype(x, "go type", e): e if the statically known dynamic type of interface value x is the given type, else true
+		xv, _ := env.eval(c.Args[0])
+		iv, ok := xv.(IfaceV)
+		ts, ok2 := c.Args[1].(*EStr)
+		if !ok || !ok2 {
+			sfail("whentype(iface, \"type\", expr)")
+		}
+		if iv.Dyn == nil || iv.Dyn.String() != ts.V {
+			return boolv("true"), tBool
+		}
+		return env.eval(c.Args[2])
+	case "pointee":
+		// pointee(x): the value the pointer boxed in interface value x points to (static dynamic type needed)
+		xv, _ := env.eval(c.Args[0])
+		iv, ok := xv.(IfaceV)
+		if !ok || iv.Dyn == nil {
+			sfail("pointee(): dynamic type of the interface value is not statically known")
+		}
+		pt, ok := iv.Dyn.Underlying().(*types.Pointer)
+		if !ok {
+			sfail("pointee(): dynamic type %s is not a pointer", iv.Dyn)
+		}
+		return st.loadLoc(LocV{Obj: iv.Pay, Owner: ownerKey(pt.Elem()), Typ: pt.Elem()}, env.snap()), pt.Elem()
 	case "addr":
 		// addr(x): the address of an address-taken local variable x
 		id, ok := c.Args[0].(*EIdent)
@@ -929,6 +976,9 @@ func (env *SpecEnv) evalCall(c *ECall) (Val, types.Type) {
 		s, t := env.eval(c.Args[0])
 		k := env.evalInt(c.Args[1])
 		vv, _ := env.eval(c.Args[2])
+		if sv, ok := vv.(SetV); ok {
+			return Sc{sStore(asSc(s).T, k, sv.T), asSc(s).S}, t
+		}
 		return Sc{sStore(asSc(s).T, k, asSc(vv).T), asSc(s).S}, t
 	case "toreal":
 		return Sc{"(to_real " + env.evalInt(c.Args[0]) + ")", SReal}, types.Typ[types.Float64]
